@@ -3,12 +3,30 @@
 import json, os
 HERE = os.path.dirname(os.path.dirname(os.path.abspath(__file__)))
 
+PK_NOTE = ("Exhaustive only inside the stated bounds (small universes of declarations, inputs over 2-4 letter alphabets up to the "
+           "declared length, start offsets); beyond them seeded random declarations. Regex delimiters limited to the modelled "
+           "library; Int widths <= 3 bytes in the packet machine (wider: C05). Trusted: TLC, the JSON exchange, the harness's "
+           "observation points (TracedBytes, TracedFragments, get_fields wrappers).")
+PK_TECH = "TLA+ model checking (TLC) of the Packet.tla unpack/pack machines + spec-to-code replay + TLC trace validation of recorded executions"
+
+
+def pk(text, design):
+    return dict(text=text, note=PK_NOTE, technique=PK_TECH, design=design)
+
+
 CLAIMED = {
  "C11": dict(
     text="TLC explores every history of insert/append/cursor-set on the Fragments model (reference sparse array and the implemented bisect algorithm side by side) inside small bounds and checks the property as invariants/action properties; the specification is bound to bisturi/fragments.py in both directions: every maximal TLC history is replayed on the real class (raise, cursor, tobytes after each step) and seeded random histories of the real class are validated by TLC against Trace_Fragments with the invariants re-evaluated at every step.",
     note="Exhaustive only inside the bounds (<=4 operations, positions 0..5, chunks <=2 bytes over 2 letters); beyond them random recorded histories. Trusted: TLC, the JSON exchange, Python's bytes.",
     technique="TLA+ model checking (TLC) of Fragments.tla + spec-to-code replay + code-to-spec trace validation",
     design="5.11"),
+ "C01": pk("TLC runs the unpack machine and then the pack machine of Packet.tla on every declaration of U_C01 x every input x start offset and checks C01_Bytes / C01_Fill / C01_Len / C01_OverlapRaises / C01_RaiseOnlyOnOverlap (PacketProps.tla) on the model; every terminal behaviour is replayed on real classes (generic and generated code); every execution that differs from the specification anywhere is recorded (read log, write log, output) and TLC evaluates the same C01 predicates on the RECORDED observations; random declarations likewise.", "5.1"),
+ "C04": pk("The unpack machine logs every slice (requested vs obtained); TLC checks C04_Exact on the model for U_C06, U_C07_24, U_C12 x all inputs (which contain every truncation of every valid encoding inside the bound); the real read log (TracedBytes) of every differing or random execution is judged by TLC: C04_Exact on the recorded slices and C04_OverAccept (the code accepted an input on which the specification's unpack fails).", "5.4"),
+ "C06": pk("Data semantics (every sizing mode, include/consume, search window, overlapping marker prefixes, regex library incl. context-sensitive patterns, end-of-string) are the ScanMarker/ScanRegex/ReadSized actions of Packet.tla; TLC enumerates U_C06 x all inputs; every behaviour is replayed; values, end offset, pack output of the real classes must equal the specification's (the property determines them uniquely).", "5.6"),
+ "C08": pk("Repeated/optional/reference control flow is the frame machine of Packet.tla (count, until seeing the list so far, when, selectors, shared option tables, nesting to depth 3); TLC enumerates U_C08 x all inputs; replay compares lists, None, nested packets, end offsets and re-serialisation; executions differing are judged on the recorded run (history-dependent faults included).", "5.8"),
+ "C10": pk("Move/alignment arithmetic is MoveTarget/PadTo of Packet.tla, used by both machines; TLC checks C10_Same (every described field ends at the same relative position on input and output) and C10_Least (least padding < a) on U_C10 (modifier x reference x const/field/callable target, nesting, class align, per-element alignment, backward placement); field events (cursor after every described field, both directions) of the real classes are compared and judged.", "5.10"),
+ "C12": pk("Fail/Unwind of Packet.tla predict the fields_stack (innermost entry = failing field, its class, the offset where it began; one entry per enclosing packet frame) for every failing input of U_C12/U_C10_Flat; replay compares phase flag, full stack (generic code), depth (generated code), str() totality, silent=True -> None, non-bytes -> ValueError; over-acceptance of failing inputs is owned too.", "5.12"),
+ "C14": pk("MC_Context.tla runs two unpack machines in lockstep on (raw, 0) and (pre+raw+post, len(pre)) for every declaration without absolute positioning x every input x pre/post over the alphabet; TLC checks cursor lockstep, equal values / shifted end and shifted error offsets, with the open-ended-scan exemption decided by the specification; every pair is replayed on real classes and differing pairs are judged by TLC on the recorded pair.", "5.14"),
 }
 
 NOT_YET = {}
